@@ -34,6 +34,12 @@ Theorem c03_usample_every_selection : forall n idxs,
   0 < prob (idxs_eqb idxs) (usample n (length idxs)).
 Proof. exact usample_every_selection. Qed.
 
+(* and all ordered selections of k distinct positions are equally likely: (n-k)!/n! each *)
+Theorem c03_usample_selection_uniform : forall n idxs,
+  NoDup idxs -> (forall i, In i idxs -> (i < n)%nat) ->
+  prob (idxs_eqb idxs) (usample n (length idxs)) == Qnat (fact (n - length idxs)) / Qnat (fact n).
+Proof. exact usample_selection_prob. Qed.
+
 (* every unit is equally likely to be among those moved on: probability k/n *)
 Theorem c03_usample_unit : forall n k i, (i < n)%nat -> (k <= n)%nat ->
   prob (selected i) (usample n k) == Qnat k / Qnat n.
@@ -48,6 +54,7 @@ Proof. exact usample_expect_sum. Qed.
 Print Assumptions c03_usample_mass.
 Print Assumptions c03_usample_support.
 Print Assumptions c03_usample_every_selection.
+Print Assumptions c03_usample_selection_uniform.
 Print Assumptions c03_usample_unit.
 Print Assumptions c03_usample_expect_sum.
 
@@ -89,6 +96,17 @@ Theorem c03_sample_complete_idx : forall (pop : list (ranking * Q)) idxs,
   NoDup idxs -> (forall i, In i idxs -> (i < length (units pop))%nat) ->
   valid_ballot_sample pop (Z.of_nat (length idxs)) (pick [] (units pop) idxs) = true.
 Proof. exact (sample_complete_idx cand ceqb). Qed.
+
+(* conversely (no sign premise): every sample the model accepts has the right size and is, position
+   by position up to the order inside a tied position, a selection of DISTINCT unit ballots: together
+   with c03_sample_complete_idx and c03_usample_every_selection the accepted draws are exactly the
+   outcomes of positive probability of the law *)
+Theorem c03_sample_sound_idx : forall (pop : list (ranking * Q)) k (l : list ranking),
+  valid_ballot_sample pop k l = true ->
+  Z.of_nat (length l) = k /\
+  exists idxs, NoDup idxs /\ (forall i, In i idxs -> (i < length (units pop))%nat) /\
+    Forall2 (fun r r' => ranking_eqb cand ceqb r r' = true) l (pick [] (units pop) idxs).
+Proof. exact (sample_sound_idx cand ceqb ceqb_spec). Qed.
 
 (* random_transfer itself: with integral weights, non-empty rankings and no negative transferable
    weight, EVERY sub-multiset of int(fpv) - int(t) of the winner's unit ballots is a draw on which
@@ -161,6 +179,7 @@ End C03_law.
 
 Print Assumptions c03_sample_complete.
 Print Assumptions c03_sample_complete_idx.
+Print Assumptions c03_sample_sound_idx.
 Print Assumptions c03_rand_transfer_complete.
 Print Assumptions c03_law_mass.
 Print Assumptions c03_law_support_valid.
